@@ -202,7 +202,8 @@ def ftPropNames : List String := ["$inherit", "inherit", "value-type", "element-
 def normMembers : Nat → List Y → FR (List Y)
   | 0, _ => .error .fuel
   | fuel + 1, ms => mapSeq (fun mem => match mem with
-      | .map ((name, val) :: rest) =>
+      | .map [(name, val)] =>
+        let rest : KVs := []
         let val' := match val with
           | .str s => Y.map [("field-type", .str s)]
           | v => v
@@ -218,8 +219,8 @@ def normMembers : Nat → List Y → FR (List Y)
             | y => .ok y) vm
           .ok (.map ((name, .map vm') :: rest))
         | _ => .ok (.map ((name, val') :: rest))
-      | .map [] => .error (.crash "IndexError: empty member node")
-      | _ => .error (.crash "member node is not a mapping")) ms
+      | other => .ok other     -- not a single-property mapping: left to the schema (finding F30, repaired)
+      ) ms
 
 /-- `normalize_struct_ft_member_nodes(parent, key)` on the value of `key` -/
 def normFt (fuel : Nat) : Y → FR Y
@@ -330,12 +331,11 @@ def erFeatureKeys : List String := ["type-id-field-type", "timestamp-field-type"
 def overExtraMembers {σ : Type} (f : σ → Y → FR (Y × σ)) (s : σ) : Y → FR (Y × σ)
   | .seq ms => do
     let (ms', s') ← mapSeqS (fun s mem => match mem with
-      | .map ((name, .map vm) :: rest) => do
+      | .map [(name, .map vm)] => do
         let (vm', s') ← modKeyS "field-type" f s vm
-        .ok (.map ((name, .map vm') :: rest), s')
-      | .map ((n, v) :: rest) => .ok (.map ((n, v) :: rest), s)     -- not an object: left to the schema
-      | .map [] => .error (.crash "IndexError: empty member node")
-      | _ => .error (.crash "member node is not a mapping")) s ms
+        .ok (.map [(name, .map vm')], s')
+      | other => .ok (other, s)     -- not a single-property mapping of an object: left to the schema
+      ) s ms
     .ok (.seq ms', s')
   | .null => .ok (.null, s)
   | _ => .error (.crash "extra members is not a sequence")
